@@ -121,6 +121,33 @@ def handle (st : St) (idx : Nat) (line : String) : St × String :=
       (st, emit idx impl { model := "cn=closed",
                            fails := if implToks.headD "" = "cn=closed" then [] else ["C14:close-notify-did-not-fire"],
                            tags := ["tlscn"] })
+    | "conn" :: "burst" :: rest =>
+      -- every accepted connection has a serve loop of its own (C15_listener: accept spawns serve,
+      -- Gen.acceptSpawnsServe), and each loop dispatches its connection's messages in order (C08_order)
+      let k := (kvNat rest "k").getD 0
+      let model := s!"served={k}/{k} order=ok"
+      let implOut := " ".intercalate implToks
+      (st, emit idx impl { model := model,
+                           fails := if implOut = model then [] else
+                             ["C08:connection-accepted-in-a-burst-not-served-in-order-by-one-loop", "C15:connection-accepted-in-a-burst-not-served"],
+                           tags := [s!"burst k={k}"] })
+    | "conn" :: "stall" :: rest =>
+      -- however a connection with a stuck writer ends, its transport is closed - which is what
+      -- fails the stuck write (C15_write_contained / C15_late_write_fails) -, the notification
+      -- fires (C14_once, C14_only_when_gone) and the listener carries on (C15_listener)
+      let srv := (kvNat rest "srv").getD 0
+      let cn := (kvNat rest "cn").getD 0
+      let model := s!"closed=1 cn={if cn = 1 then "fired" else "-"} write=err b={if srv = 1 then "served" else "-"}"
+      let closed := (kv implToks "closed").getD "" = "1"
+      let cnOk := cn = 0 ∨ (kv implToks "cn").getD "" = "fired"
+      let wOk := (kv implToks "write").getD "" = "err"
+      let bOk := srv = 0 ∨ (kv implToks "b").getD "" = "served"
+      (st, emit idx impl { model := model,
+                           fails := (if closed then [] else ["C14:connection-with-a-stuck-writer-never-closed", "C15:connection-with-a-stuck-writer-never-closed"]) ++
+                                    (if cnOk then [] else ["C14:close-notify-did-not-fire"]) ++
+                                    (if wOk then [] else ["C15:stuck-write-not-released-when-the-connection-ended"]) ++
+                                    (if bOk then [] else ["C15:fault-on-one-connection-stops-the-listener"]),
+                           tags := [s!"stall how={(kv rest "how").getD "-"} srv={srv} cn={cn}"] })
     | "conn" :: "xtalk" :: rest =>
       -- every connection is handed its own messages (C15_frame); every faulty one is closed
       let k := (kvNat rest "k").getD 0
@@ -131,10 +158,20 @@ def handle (st : St) (idx : Nat) (line : String) : St × String :=
       let lost := implToks.any (fun t => t.endsWith "=lost")
       let implOut := " ".intercalate implToks
       (st, emit idx impl { model := model,
-                           fails := (if foreign then ["C15:handler-given-bytes-of-another-connection"] else []) ++
-                                    (if lost then ["C15:message-on-healthy-connection-lost-after-faults-elsewhere"] else []) ++
+                           fails := (if foreign then ["C15:handler-given-bytes-of-another-connection", "C05:message-bytes-are-not-those-of-its-own-stream"] else []) ++
+                                    (if lost then ["C15:message-on-healthy-connection-lost-after-faults-elsewhere", "C05:message-of-a-healthy-stream-not-delivered"] else []) ++
                                     (if ¬ foreign ∧ ¬ lost ∧ implOut ≠ model then ["C15:faulty-connection-not-closed"] else []),
                            tags := [s!"xtalk fk={(kvNat rest "fk").getD 0} big={(kvNat rest "big").getD 0}"] })
+    | "smclient" :: "dialtcp" :: rest =>
+      -- after a successful handshake the connection is open and carries the application's
+      -- requests, whenever they are written (C12_stable: nothing closes it; the dial timeout
+      -- bounds the dial, not the life of the connection)
+      let model := "dial=ok w1=ok w2=ok recv=2"
+      let implOut := " ".intercalate implToks
+      (st, emit idx impl { model := model,
+                           fails := if implOut = model then [] else
+                             (if implOut = "no-loopback" then [] else ["C12:established-connection-not-usable-after-the-handshake"]),
+                           tags := [s!"dialtcp via={(kv rest "via").getD "-"}"] })
     | "smclient" :: "cea" :: _ => (st, emit idx impl (judgeCEA dict implToks))
     | "smclient" :: "dial" :: rest =>
       (st, emit idx impl (judgeDial dict ((kvNat rest "r").getD 0) ((kvNat rest "cfg").getD 0) ((kvNat rest "wf").getD 0)
